@@ -4,6 +4,7 @@
 use crate::be::{Bk, HalAll};
 use crate::big::{aligned_copy, vclone};
 use crate::c09::{self, Op};
+use crate::c08::fam_big_scratch;
 use crate::for_backends;
 use crate::ops::{self, Lay, OpCase, Opts, ScratchMode, stray_writes};
 use crate::util::Val;
@@ -30,8 +31,39 @@ pub struct VCase {
     pub p: i64,
     pub b_out: usize,
     /// value class of the operands: 0 = normalised random digits, 1 = 64-bit boundary values (C10 kernels sweep)
+    ///   2 = full i64 range around the points where `x - digit` / `x + carry` wrap (normalisation kernels only):
+    ///       coefficient i of limb j holds T[(i + stride * j + rot) % 16], so that (rot, stride) in 0..16 x 0..16 puts
+    ///       every value in every SIMD lane and every ordered pair of values into adjacent limbs
     #[serde(default)]
     pub val: u8,
+    #[serde(default)]
+    pub rot: u8,
+    #[serde(default)]
+    pub stride: u8,
+}
+
+/// the 16 full-range values of value class 2 for radix 2^b
+pub fn full_range_values(b: usize) -> [i64; 16] {
+    let half: i64 = 1i64 << (b.clamp(1, 62) - 1);
+    let h: i64 = i64::MAX - half + 1; // 2^63 - 2^(b-1): smallest x whose balanced digit makes x - digit wrap
+    [
+        i64::MAX,
+        i64::MIN,
+        i64::MAX - 1,
+        i64::MIN + 1,
+        h,
+        h - 1,
+        h.saturating_add(1),
+        -h,
+        -h - 1,
+        1i64 << 62,
+        -(1i64 << 62),
+        (1i64 << 62) - 1,
+        0,
+        -1,
+        half - 1,
+        -half,
+    ]
 }
 
 pub const NORM_OPS: [&str; 10] = [
@@ -113,6 +145,16 @@ where
     for (i, x) in a.raw_mut().iter_mut().enumerate() {
         *x = if c.val == 1 { boundary(i, &mut rng) } else { rng.digit(c.b) };
     }
+    if c.val == 2 {
+        let t = full_range_values(c.b);
+        for col in 0..c.cols {
+            for j in 0..c.a_s {
+                for (i, x) in a.at_mut(col, j).iter_mut().enumerate() {
+                    *x = t[(i + c.stride as usize * j + c.rot as usize + 3 * col) % 16];
+                }
+            }
+        }
+    }
     for (i, x) in b.raw_mut().iter_mut().enumerate() {
         *x = if c.val == 1 { boundary(i + 3, &mut rng) } else { rng.digit(c.b) };
     }
@@ -123,9 +165,14 @@ where
     garbage(&mut r.data, o.garbage);
     r.size = c.rs;
     if v_in_place(&c.op) {
+        let t = full_range_values(c.b);
         for j in 0..c.rs {
-            for x in r.at_mut(c.rc, j) {
-                *x = rng.digit(c.b);
+            for (i, x) in r.at_mut(c.rc, j).iter_mut().enumerate() {
+                *x = match c.val {
+                    2 => t[(i + c.stride as usize * j + c.rot as usize) % 16],
+                    1 => boundary(i + 5 * j, &mut rng),
+                    _ => rng.digit(c.b),
+                };
             }
         }
     }
@@ -255,6 +302,8 @@ pub fn v_cases(tier: Tier) -> Vec<VCase> {
                                     p,
                                     b_out: 12,
                                     val: 0,
+                                    rot: 0,
+                                    stride: 0,
                                 });
                             }
                         }
@@ -296,6 +345,8 @@ pub fn v_cases(tier: Tier) -> Vec<VCase> {
                                     p,
                                     b_out,
                                     val: 0,
+                                    rot: 0,
+                                    stride: 0,
                                 });
                             }
                         }
@@ -556,12 +607,182 @@ where
     );
 }
 
+// ---------------------------------------------------------------------------------------------
+// ring switching / splitting / merging from two garbage fills
+// ---------------------------------------------------------------------------------------------
+
+#[derive(Clone, Debug, Serialize, Deserialize)]
+pub struct RingVCase {
+    pub op: String, // switch_ring | split_ring | merge_rings
+    pub n_in: usize,
+    pub n_out: usize,
+    pub cols: usize,
+    pub rs: usize,
+    pub a_s: usize,
+    pub rc: usize,
+    pub ac: usize,
+}
+
+/// one run from garbage fill `fill`: bytes of the selected column of every output, issues found
+fn ring_once<B: Bk>(c: &RingVCase, seed: u64, fill: usize) -> Result<(Vec<u8>, Vec<String>), String>
+where
+    Module<B>: HalAll<B>,
+{
+    let mut rng = Rng::new(seed, fnv(format!("{:?}", c).as_bytes()));
+    let big = c.n_in.max(c.n_out);
+    let small = c.n_in.min(c.n_out);
+    let parts = big / small;
+    // switch_ring only needs some module; split / merge need the module of the big ring
+    let mb = if c.op == "switch_ring" { B::module(big.max(8)) } else { B::module(big) };
+    let mut issues = vec![];
+    let o = Opts { garbage: fill, scratch: ScratchMode::Exact(fill), seed };
+    let gvec = |n: usize| -> VecZnx<Vec<u8>> {
+        let mut r = VecZnx::alloc(n, c.cols, c.rs + 1);
+        garbage(&mut r.data, fill);
+        r.size = c.rs;
+        r
+    };
+    let mut fillv = |n: usize, rng: &mut Rng| -> VecZnx<Vec<u8>> {
+        let mut a = VecZnx::alloc(n, c.cols, c.a_s);
+        for x in a.raw_mut() {
+            *x = rng.digit(50);
+        }
+        a
+    };
+    let lay = |n: usize| Lay { n, cols: c.cols, w: 8 };
+    let sel = |r: &VecZnx<Vec<u8>>, n: usize| -> Vec<u8> { (0..c.rs).flat_map(|j| r.data[lay(n).range(c.rc, j)].to_vec()).collect() };
+    let mut out = vec![];
+    let res = guarded(|| match c.op.as_str() {
+        "switch_ring" => {
+            let a = fillv(c.n_in, &mut rng);
+            let ad = fnv(&a.data);
+            let mut r = gvec(c.n_out);
+            let before = aligned_copy(&r.data);
+            mb.vec_znx_switch_ring(&mut r, c.rc, &a, c.ac);
+            if let Some(w) = stray_writes(&before, &r.data, lay(c.n_out), c.rc, c.rs, "result") {
+                issues.push(w);
+            }
+            if fnv(&a.data) != ad {
+                issues.push("operand modified".into());
+            }
+            out.extend(sel(&r, c.n_out));
+        }
+        "split_ring" => {
+            let a = fillv(big, &mut rng);
+            let ad = fnv(&a.data);
+            let mut rs: Vec<VecZnx<Vec<u8>>> = (0..parts).map(|_| gvec(small)).collect();
+            let befores: Vec<Vec<u8>> = rs.iter().map(|r| r.data.to_vec()).collect();
+            let tb = mb.vec_znx_split_ring_tmp_bytes();
+            ops::with_scratch::<B, _>(tb, &o, &mut issues, |s| mb.vec_znx_split_ring(&mut rs, c.rc, &a, c.ac, s));
+            for (r, b) in rs.iter().zip(befores.iter()) {
+                if let Some(w) = stray_writes(b, &r.data, lay(small), c.rc, c.rs, "result part") {
+                    issues.push(w);
+                }
+                out.extend(sel(r, small));
+            }
+            if fnv(&a.data) != ad {
+                issues.push("operand modified".into());
+            }
+        }
+        _ => {
+            let ps: Vec<VecZnx<Vec<u8>>> = (0..parts).map(|_| fillv(small, &mut rng)).collect();
+            let pd: Vec<u64> = ps.iter().map(|p| fnv(&p.data)).collect();
+            let mut r = gvec(big);
+            let before = aligned_copy(&r.data);
+            let tb = mb.vec_znx_merge_rings_tmp_bytes();
+            ops::with_scratch::<B, _>(tb, &o, &mut issues, |s| mb.vec_znx_merge_rings(&mut r, c.rc, &ps, c.ac, s));
+            if let Some(w) = stray_writes(&before, &r.data, lay(big), c.rc, c.rs, "result") {
+                issues.push(w);
+            }
+            if ps.iter().zip(pd.iter()).any(|(p, d)| fnv(&p.data) != *d) {
+                issues.push("operand modified".into());
+            }
+            out.extend(sel(&r, big));
+        }
+    });
+    res.map(|_| (out, issues))
+}
+
+pub fn exec_ringv<B: Bk>(c: &RingVCase, seed: u64, rec: &mut Rec)
+where
+    Module<B>: HalAll<B>,
+{
+    rec.distinct(fnv(format!("{:?}", c).as_bytes()));
+    rec.sample(|| serde_json::to_value(c).unwrap());
+    let mut outs = vec![];
+    for fill in [0usize, 1] {
+        rec.evals(1);
+        match ring_once::<B>(c, seed, fill) {
+            Err(p) => {
+                let kind = if p.contains("scratch") || p.contains("Attempted to take") { "scratch_too_small" } else { "panic" };
+                rec.fail(json!({"op": format!("vec_znx_{}", c.op), "backend": B::NAME, "kind": kind, "case": c, "panic": p}));
+                return;
+            }
+            Ok((o, issues)) => {
+                for w in issues {
+                    let kind = if w.starts_with("scratch") { "scratch_overrun" } else { "stray_write" };
+                    rec.fail(json!({"op": format!("vec_znx_{}", c.op), "backend": B::NAME, "kind": kind, "case": c, "why": w}));
+                }
+                outs.push(o);
+            }
+        }
+    }
+    if outs[0] != outs[1] {
+        let pos = outs[0].iter().zip(outs[1].iter()).position(|(a, b)| a != b).unwrap_or(0);
+        rec.fail(json!({"op": format!("vec_znx_{}", c.op), "backend": B::NAME, "kind": "stale_output", "case": c,
+            "why": format!("selected output differs between two garbage fills of the result buffers / scratch (first at byte {pos})")}));
+    }
+    rec.outcome(fnv(&outs[0]));
+}
+
+pub fn ringv_cases(tier: Tier) -> Vec<RingVCase> {
+    let mut out = vec![];
+    let colsets: &[(usize, usize, usize)] = &[(1, 0, 0), (2, 1, 0), (3, 0, 2), (3, 2, 1)];
+    for big in tier.pick(vec![4usize, 8, 16, 32], vec![2usize, 4, 8, 16, 32, 64]) {
+        for ratio in [1usize, 2, 4, 8, 16] {
+            if big % ratio != 0 || big / ratio == 0 {
+                continue;
+            }
+            let small = big / ratio;
+            for &(cols, rc, ac) in colsets {
+                for rs in 1..=tier.pick(2usize, 3) {
+                    for a_s in 1..=tier.pick(2usize, 3) {
+                        let mk = |op: &str, n_in: usize, n_out: usize| RingVCase { op: op.into(), n_in, n_out, cols, rs, a_s, rc, ac };
+                        out.push(mk("switch_ring", big, small));
+                        out.push(mk("switch_ring", small, big));
+                        if ratio > 1 {
+                            out.push(mk("split_ring", big, small));
+                            out.push(mk("merge_rings", small, big));
+                        }
+                    }
+                }
+            }
+        }
+    }
+    out
+}
+
+pub fn fam_ringv<B: Bk>(run: &mut Run)
+where
+    Module<B>: HalAll<B>,
+{
+    let seed = run.seed;
+    run.family(
+        &format!("ring_ops/{}", B::NAME),
+        "switch_ring (both directions, ratios 1..16), split_ring, merge_rings x column patterns of 1..3 columns x result / operand sizes: two runs from independent garbage in every result buffer (all columns, spare limb) and in an exact-size scratch window; selected column byte-identical, every other byte untouched, operands unmodified",
+        ringv_cases(run.tier),
+        |c, rec| exec_ringv::<B>(c, seed, rec),
+    );
+}
+
 pub fn run(run: &mut Run) {
     run.assume("operand digits are normalised (|d| < 2^(b-1)); DFT-domain cases stay inside the C07 magnitude domain");
     run.assume("for in-place forms the prior content of the selected column is an input; garbage is applied to other columns, spare capacity, prepared operands' buffers before preparation, and scratch");
     for_backends!(fam_v(run));
     for_backends!(fam_d(run));
     for_backends!(fam_hist(run));
+    for_backends!(fam_big_scratch(run));
+    for_backends!(fam_ringv(run));
     let total: u64 = run.families.iter().map(|f| f.rec.evaluations).sum();
     run.transitions = total;
     run.traces_validated = total;
@@ -574,7 +795,13 @@ pub fn replay(run: &mut Run, d: &Value) {
     let seed = d["seed"].as_u64().unwrap_or(0);
     macro_rules! go {
         ($B:ty) => {{
-            if fam.starts_with("coefficient_ops") {
+            if fam.starts_with("ring_ops") {
+                let c: RingVCase = serde_json::from_value(d["case"].clone()).unwrap();
+                run.single(&fam, "replay", |rec| exec_ringv::<$B>(&c, seed, rec));
+            } else if fam.starts_with("big_normalize_scratch") {
+                let c: crate::c08::Case = serde_json::from_value(d["case"].clone()).unwrap();
+                run.single(&fam, "replay", |rec| crate::c08::exec_scratch::<$B>(&c, seed, rec));
+            } else if fam.starts_with("coefficient_ops") {
                 let c: VCase = serde_json::from_value(d["case"].clone()).unwrap();
                 run.single(&fam, "replay", |rec| exec_v::<$B>(&c, seed, rec));
             } else if fam.starts_with("dft_domain_ops") {
